@@ -2,12 +2,12 @@
 (***************************************************************************)
 (* Property C14: the cases.  One state = one object of the library with    *)
 (* the exact value of everything C14 observes on it; Init chooses the      *)
-(* object, nothing moves afterwards.  Families (constant Kind):            *)
+(* object, nothing moves afterwards.  Families (chosen by Kinds):           *)
 (*                                                                         *)
 (*  "segment"    U, V distinct rational ideal points (integer null vectors *)
-(*               with entries <= B), end points a U + b V with weights     *)
-(*               from Coefs (ideal end points included), so the ideal end  *)
-(*               points of the segment are exactly {U, V}.                 *)
+(*               with entries <= B), end points (a u + b v)/(a + b) in the *)
+(*               Klein model with weights from Coefs (ideal end points     *)
+(*               included), so the ideal end points are exactly {U, V}.    *)
 (*  "near"       n = 2, U on a coordinate axis and V the rational ideal    *)
 (*               point at angle 2 atan(1/m) from its antipode: the circle  *)
 (*               has centre u + m u^perp and radius exactly m (near-       *)
@@ -26,13 +26,15 @@
 (***************************************************************************)
 EXTENDS HypCoords, HypCircle, FormOps, Json
 
-CONSTANTS Kind,      \* family of cases
+CONSTANTS Kinds,     \* families of cases explored in this run
           CoefMax,   \* weights a, b of the end points a U + b V range over 0..CoefMax
           NearM,     \* set of radii m of the near-diameter family
           Bx,        \* bound on the entries of interior reference points
-          Bw         \* bound on the entries of hyperplane normals
+          Bw,        \* bound on the entries of hyperplane normals
+          Thin       \* keep one set of ideal points in Thin as a basis of a subspace (deterministic thinning)
 
 VARIABLE cs
+Kind == cs.kind
 
 Neg(x) == 0 - x
 IdealPts == {v \in Box(N + 1, B) : v[1] > 0 /\ IsPrim(v) /\ NN(v) = 0}
@@ -44,42 +46,50 @@ Inf == [i \in 1..(N + 1) |-> IF i <= 2 THEN 1 ELSE 0]               \* the half-
 Rows(Q) == SetSeq(Q)
 
 (***************************************************************************)
-(* the families                                                            *)
+(* the families.  An initial state is a SEED (family + first component of  *)
+(* the object), its successors are the cases grown from it, so that TLC's  *)
+(* workers share the evaluation of the invariants.                         *)
 (***************************************************************************)
-SegCases == {[U |-> U, V |-> V, a |-> a, b |-> b] : U \in IdealPts, V \in IdealPts, a \in Coefs, b \in Coefs}
+Seed(f, x) == [kind |-> "seed", fam |-> f, x |-> x]
 SegOK(c) == LexLess(c.U, c.V) /\ c.a[1] * c.b[2] # c.a[2] * c.b[1]
+SegCases(U) == {c \in {[kind |-> "segment", U |-> U, V |-> V, a |-> a, b |-> b] : V \in IdealPts, a \in Coefs, b \in Coefs} : SegOK(c)}
 
 AxisPts == {<<1, 1, 0>>, <<1, 0, 1>>, <<1, Neg(1), 0>>, <<1, 0, Neg(1)>>}
 NearV(U, m, sg) == <<m * m + 1, Neg(m * m - 1) * U[2] - sg * 2 * m * U[3], Neg(m * m - 1) * U[3] + sg * 2 * m * U[2]>>
-NearCases == {[U |-> U, V |-> NearV(U, m, sg), a |-> a, b |-> b] : U \in AxisPts, m \in NearM, sg \in {1, Neg(1)},
-                                                                  a \in Coefs, b \in Coefs}
+NearCases(U) == {c \in {[kind |-> "near", U |-> U, V |-> NearV(U, m, sg), a |-> a, b |-> b] : m \in NearM, sg \in {1, Neg(1)}, a \in Coefs, b \in Coefs} :
+                   c.a[1] * c.b[2] # c.a[2] * c.b[1]}
 
-HoroCases == {[U |-> U, X |-> X] : U \in IdealPts, X \in SquarePts}
+HoroCases(U) == {[kind |-> "horo", U |-> U, X |-> X] : X \in SquarePts}
 \* X and Y on one horosphere centred at U:  <X,U>^2 / -<X,X>  =  <Y,U>^2 / -<Y,Y>
 SameHoro(U, X, Y) == MDot(X, U) * MDot(X, U) * NN(Y) = MDot(Y, U) * MDot(Y, U) * NN(X)
-ArcCases == {[U |-> U, X |-> X, Y |-> Y] : U \in IdealPts, X \in SquarePts, Y \in SquarePts}
-ArcOK(c) == c.X # c.Y /\ SameHoro(c.U, c.X, c.Y)
+ArcCases(U) == {c \in {[kind |-> "horoarc", U |-> U, X |-> X, Y |-> Y] : X \in SquarePts, Y \in SquarePts} : c.X # c.Y /\ SameHoro(U, c.X, c.Y)}
 
-\* strictly increasing (lexicographic) tuples of k+1 ideal points = sets of k+1 ideal points
-RECURSIVE IncTuples(_)
-IncTuples(m) == IF m = 0 THEN {<<>>}
-                ELSE {Append(t, z) : t \in IncTuples(m - 1), z \in IdealPts}
-Increasing(t) == \A i \in 1..(Len(t) - 1) : LexLess(t[i], t[i + 1])
-SubCases == UNION {{[basis |-> t] : t \in {s \in IncTuples(k + 1) : Increasing(s)}} : k \in 2..(N - 1)}
-SubOK(c) == RankOf(c.basis) = Len(c.basis)
+\* strictly increasing (lexicographic) tuples of k+1 ideal points = sets of k+1 ideal points, starting at z0
+RECURSIVE IncTuples(_, _)
+IncTuples(z0, m) == IF m = 1 THEN {<<z0>>}
+                    ELSE UNION {{Append(t, z) : z \in {y \in IdealPts : LexLess(t[Len(t)], y)}} : t \in IncTuples(z0, m - 1)}
+Weight(t) == ISum([i \in 1..Len(t) |-> ISum([j \in 1..Len(t[i]) |-> (3 * i + j) * (t[i][j] + B)])])
+\* three distinct null vectors are independent
+SubOK(t) == Weight(t) % Thin = 0 /\ (Len(t) = 3 \/ RankOf(t) = Len(t))
+SubCases(z0) == UNION {{[kind |-> "subspace", basis |-> t] : t \in {s \in IncTuples(z0, k + 1) : SubOK(s)}} : k \in 2..(N - 1)}
 
-Normals == {w \in Box(N + 1, Bw) : IsPrim(w) /\ MNorm(w) > 0}
 IdealOn(w) == {z \in IdealPts : MDot(w, z) = 0}
-PlaneCases == {[W |-> w] : w \in Normals}
-PlaneOK(c) == Cardinality(IdealOn(c.W)) >= N
+PlaneCases(w1) == {[kind |-> "hyperplane", W |-> w] :
+                     w \in {v \in Box(N + 1, Bw) : v[1] = w1 /\ IsPrim(v) /\ MNorm(v) > 0 /\ Cardinality(IdealOn(v)) >= N}}
 
-Init == \/ Kind = "segment" /\ cs \in SegCases /\ SegOK(cs)
-        \/ Kind = "near" /\ cs \in NearCases /\ cs.a[1] * cs.b[2] # cs.a[2] * cs.b[1]
-        \/ Kind = "horo" /\ cs \in HoroCases
-        \/ Kind = "horoarc" /\ cs \in ArcCases /\ ArcOK(cs)
-        \/ Kind = "subspace" /\ cs \in SubCases /\ SubOK(cs)
-        \/ Kind = "hyperplane" /\ cs \in PlaneCases /\ PlaneOK(cs)
-Next == UNCHANGED cs
+Init == \/ "segment" \in Kinds /\ cs \in {Seed("segment", U) : U \in IdealPts}
+        \/ "near" \in Kinds /\ N = 2 /\ cs \in {Seed("near", U) : U \in AxisPts}
+        \/ "horo" \in Kinds /\ cs \in {Seed("horo", U) : U \in IdealPts}
+        \/ "horoarc" \in Kinds /\ N = 2 /\ cs \in {Seed("horoarc", U) : U \in IdealPts}
+        \/ "subspace" \in Kinds /\ cs \in {Seed("subspace", U) : U \in IdealPts}
+        \/ "hyperplane" \in Kinds /\ cs \in {Seed("hyperplane", w1) : w1 \in 0..Bw}
+Grow(sd) == CASE sd.fam = "segment" -> SegCases(sd.x)
+              [] sd.fam = "near" -> NearCases(sd.x)
+              [] sd.fam = "horo" -> HoroCases(sd.x)
+              [] sd.fam = "horoarc" -> ArcCases(sd.x)
+              [] sd.fam = "subspace" -> SubCases(sd.x)
+              [] sd.fam = "hyperplane" -> PlaneCases(sd.x)
+Next == cs.kind = "seed" /\ cs' \in Grow(cs)
 
 (***************************************************************************)
 (* segments and geodesics                                                  *)
@@ -127,8 +137,10 @@ IsNull(v) == IF \A i \in 1..Len(v) : Abs(v[i]) <= 20000 THEN MNorm(v) = 0
 SegIdeal ==
   IsSeg => /\ IsNull(cs.U) /\ IsNull(cs.V) /\ Prim(cs.U) # Prim(cs.V)
            /\ P1[1] > 0 /\ P2[1] > 0 /\ Prim(P1) # Prim(P2)
-           /\ SmallSeg => NegNorm(P1) = ChordNegNorm(cs.U, cs.V, cs.a)
-           /\ ChordNegNorm(cs.U, cs.V, cs.a) >= 0 /\ ChordNegNorm(cs.U, cs.V, cs.b) >= 0
+           /\ SmallSeg => LET f == ChordNegNormFactors(cs.U, cs.V, cs.a) IN NegNorm(P1) = f[1] * f[2] * f[3] * f[4]
+           /\ \A c \in {cs.a, cs.b} : \A i \in 1..4 : ChordNegNormFactors(cs.U, cs.V, c)[i] >= 0
+           /\ SmallSeg => \A c \in {cs.a, cs.b} :                   \* Klein coordinates (a u + b v) / (a + b)
+                 KleinOf(OnChord(cs.U, cs.V, c)) = RScale(R(1, c[1] + c[2]), RVAdd(RScale(RInt(c[1]), KleinOf(cs.U)), RScale(RInt(c[2]), KleinOf(cs.V))))
            /\ SmallSeg => \A i, j \in 1..N :
                  LET ku == KleinOf(cs.U)
                      kv == KleinOf(cs.V)
@@ -282,14 +294,16 @@ SubExp ==
       hs |-> SubHs, hz |-> IF SubHs THEN [i \in 1..Len(pts) |-> HsOnBoundary(HsHoriz(pts[i]))] ELSE <<>>]
 SubLaws ==
   Kind = "subspace" =>
-    /\ \A z \in SubPts : MNorm(z) = 0 /\ z[1] > 0 /\ RankOf(Append(cs.basis, z)) = Len(cs.basis)
-    /\ Cardinality(SubPts) > Len(cs.basis)
-    /\ SubHs => \A z \in SubPts : ~AtHsInfinity(z)
-    /\ ~SubStraight =>
-         LET W == SubPole(cs.basis)
-         IN /\ W[1] > 0 /\ MNorm(W) > 0
-            /\ \A z \in SubPts : OnPole(W, z) /\ DistSqCD(KleinOf(z), PoleCentre(W)) = PoleRadSq(W)
-            /\ PoleRadSq(W) = RSub(NormSqCD(PoleCentre(W)), ROne)
+    LET pts == SubPts
+        m == Len(cs.basis)
+    IN /\ \A z \in pts : MNorm(z) = 0 /\ z[1] > 0 /\ RankOf(Append(cs.basis, z)) = m
+       /\ Cardinality(pts) > m
+       /\ SubHs => \A z \in pts : ~AtHsInfinity(z)
+       /\ ~SubStraight =>
+            LET W == SubPole(cs.basis)
+            IN /\ W[1] > 0 /\ MNorm(W) > 0
+               /\ \A z \in pts : OnPole(W, z) /\ DistSqIs(KleinOf(z), PoleCentre(W), PoleRadSq(W))
+               /\ PoleRadSq(W) = RSub(NormSqCD(PoleCentre(W)), ROne)
 
 PlaneW == IF cs.W[1] < 0 THEN VScale(Neg(1), cs.W) ELSE cs.W
 PlaneHs == cs.W[1] # cs.W[2]
@@ -309,8 +323,9 @@ PlaneLaws ==
     IN /\ MNorm(W) > 0
        /\ PlaneHs <=> ~OnPole(W, Inf)
        /\ Straight(W) <=> OnPole(W, E0)
-       /\ ~Straight(W) => \A z \in IdealOn(cs.W) : DistSqCD(KleinOf(z), PoleCentre(W)) = PoleRadSq(W)
-       /\ PlaneHs => \A z \in IdealOn(cs.W) : ~AtHsInfinity(z) /\ DistSqCD(HsHoriz(z), HsPoleCentre(cs.W)) = HsPoleRadSq(cs.W)
+       /\ \A z \in IdealOn(cs.W) : OnPole(W, z)
+       /\ ~Straight(W) => \A z \in IdealOn(cs.W) : DistSqIs(KleinOf(z), PoleCentre(W), PoleRadSq(W))
+       /\ PlaneHs => \A z \in IdealOn(cs.W) : ~AtHsInfinity(z) /\ DistSqIs(HsHoriz(z), HsPoleCentre(cs.W), HsPoleRadSq(cs.W))
        /\ (Cardinality(IdealOn(cs.W)) = N /\ RankOf(Rows(IdealOn(cs.W))) = N /\ ~Straight(W)) => SubPole(Rows(IdealOn(cs.W))) = W
 
 (***************************************************************************)
@@ -321,5 +336,5 @@ Exp == CASE IsSeg -> SegExp
          [] Kind = "horoarc" -> ArcExp
          [] Kind = "subspace" -> SubExp
          [] Kind = "hyperplane" -> PlaneExp
-EmitCase == PrintT("CASE " \o ToJson(Exp))
+EmitCase == Kind = "seed" \/ PrintT("CASE " \o ToJson(Exp))
 =============================================================================
